@@ -3,6 +3,7 @@ import Jose.Fmt
 import Jose.Driver.Util
 import Jose.Driver.B64
 import Jose.Driver.Entity
+import Jose.Driver.Cfg
 /-
   The handlers of the line protocol that are pure model code (no primitive of Jose/Crypto, no
   `partial`): the very functions the correspondence run compares with the implementation.
@@ -70,7 +71,7 @@ def fmtOps : List (String × (Json → Json)) := [
     | _ => err "unmodelled-subcommand")
 ]
 
-def pureOps : List (String × (Json → Json)) := b64Ops ++ entityOps ++ jwkPureOps ++ fmtOps
+def pureOps : List (String × (Json → Json)) := b64Ops ++ entityOps ++ jwkPureOps ++ fmtOps ++ cfgOps
 
 /-- one row of the regenerated table: the operation, its arguments, what the implementation answered -/
 structure GridRow where
